@@ -262,10 +262,12 @@ Definition val_cn_struct (attrs : list attr) (kids : list xml) : list rule :=
       end
     else [R_MATH_CN_FORMAT].
 
-(** the branch of the if/else-if chain for an element named [n]: [pk] the MathML children of the parent, [idx] the
+(** [fx]: false = the code as it is now; true = with the repair fixes/C01-mathml-arity.diff (arity rules for min / max /
+    rem).  The drivers use [arity_fix_committed].
+    The branch of the if/else-if chain for an element named [n]: [pk] the MathML children of the parent, [idx] the
     position of the node among them, [kids] its own children, [sub] the issues of the recursion over its own MathML
     children (only apply / piecewise / piece / otherwise recurse) *)
-Definition val_node (pk : list xml) (idx : nat) (n : string) (attrs : list attr) (kids : list xml) (sub : list rule) : list rule :=
+Definition val_node (fx : bool) (pk : list xml) (idx : nat) (n : string) (attrs : list attr) (kids : list xml) (sub : list rule) : list rule :=
   let mk := mkids kids in
   let cnt := length pk in
   match vclass_of n with
@@ -281,9 +283,13 @@ Definition val_node (pk : list xml) (idx : nat) (n : string) (attrs : list attr)
   | VLog =>
       mm ((cnt =? 2) || (cnt =? 3))
          (is_nth_sibling pk idx 0 (if cnt =? 3 then first_sibling_named pk idx "logbase" [] else []))
-  | VNoRule => []
+  | VNoRule =>            (* min max rem: empty branches; with fixes/C01-mathml-arity.diff: rem as divide, min/max as times *)
+      if fx then
+        (if String.eqb n "rem" then mm (cnt =? 3) (is_nth_sibling pk idx 0 [])
+         else mm (3 <=? cnt) (is_nth_sibling pk idx 0 []))
+      else []
   | VDiff => mm (cnt =? 3) (is_nth_sibling pk idx 0 (first_sibling_named pk idx "bvar" []))
-  | VPiecewise => sub
+  | VPiecewise => sub       (* an empty piecewise raises nothing; the test-suite pins that (Validator.invalidMathMLElementsChildrenOrSiblings) *)
   | VPiece => mm (length mk =? 2) sub
   | VOtherwise => mm (length mk =? 1) sub
   | VCi => val_ci_struct kids
@@ -300,32 +306,36 @@ Definition val_node (pk : list xml) (idx : nat) (n : string) (attrs : list attr)
   | VOther => []
   end.
 
-Fixpoint val_struct (pk : list xml) (idx : nat) (x : xml) {struct x} : list rule :=
+Fixpoint val_struct (fx : bool) (pk : list xml) (idx : nat) (x : xml) {struct x} : list rule :=
   match x with
   | Elem ns n attrs kids =>
       if negb (String.eqb ns MATHML_NS) then [] else
-      val_node pk idx n attrs kids
+      val_node fx pk idx n attrs kids
         ((fix go (ks : list xml) (i : nat) {struct ks} : list rule :=
             match ks with
             | [] => []
-            | k :: r => if is_mathml k then val_struct (mkids kids) i k ++ go r (S i) else go r i
+            | k :: r => if is_mathml k then val_struct fx (mkids kids) i k ++ go r (S i) else go r i
             end) kids 0)
   | _ => []
   end.
 
-Fixpoint val_struct_kids (mk : list xml) (ks : list xml) (i : nat) : list rule :=
+Fixpoint val_struct_kids (fx : bool) (mk : list xml) (ks : list xml) (i : nat) : list rule :=
   match ks with
   | [] => []
-  | k :: r => if is_mathml k then val_struct mk i k ++ val_struct_kids mk r (S i) else val_struct_kids mk r i
+  | k :: r => if is_mathml k then val_struct fx mk i k ++ val_struct_kids fx mk r (S i) else val_struct_kids fx mk r i
   end.
 
 (** validateMath on one <math> document (the DTD pass between pass 2 and pass 4 is not modelled) *)
-Definition val_math_env (vars units : list string) (root : xml) : list rule :=
+Definition val_math_env_gen (fx : bool) (vars units : list string) (root : xml) : list rule :=
   if negb (is_mathml_el "math" root) then [R_MATH_ELEMENT]
   else
     (fix go (ks : list xml) : list rule := match ks with [] => [] | k :: r => val_supported k ++ go r end) (kids_of root)
     ++ val_cicn vars units root
-    ++ val_struct_kids (mkids (kids_of root)) (kids_of root) 0.
+    ++ val_struct_kids fx (mkids (kids_of root)) (kids_of root) 0.
+
+(** flipped to true by the orchestrator when fixes/C01-mathml-arity.diff is committed to /repo *)
+Definition arity_fix_committed : bool := false.
+Definition val_math_env : list string -> list string -> xml -> list rule := val_math_env_gen arity_fix_committed.
 
 (** the environment used by the drivers and by the closed statements: variables t x y z, units "dimensionless" *)
 Definition std_vars : list string := ["t"; "x"; "y"; "z"].
@@ -797,6 +807,19 @@ Definition enum_d2 (nleaves : nat) : list xml :=
 Definition enum_d3 (nleaves : nat) : list xml :=
   let lv := firstn nleaves leaf_priority in
   flat_map in_contexts (grow lv (grow lv (containers_over 2 lv) 3) 2).
+
+(** the arity table row by row: every supported element name (regenerated table) as operator with 0..4 operands,
+    as an equation, as a bare child of math, and in a position that is not the first *)
+Definition arity_sweep : list xml :=
+  flat_map (fun n =>
+    flat_map (fun k =>
+      let args := repeat (m_ci "y") k in
+      [m_math [m_eqn (m_ci "x") (m_apply n args)];
+       m_math [m_apply n args];
+       m_math [m_eqn (m_ci "x") (m_el "apply" (m_leaf "plus" :: m_leaf n :: args))];
+       m_math [m_eqn (m_ci "x") (m_el n args)]])
+      [0; 1; 2; 3; 4])
+    supported_mathml_elements.
 
 Definition is_gap (root : xml) : bool :=
   match val_math root, ana root with [], None => true | _, _ => false end.
